@@ -33,6 +33,28 @@ claim('C11', 'Lean theorems for every payload, every cut position (per-offset ch
       FLOAT_NOTE + 'The value of a field cut in the middle is unspecified by the property and not compared.',
       'DESIGN.md §5 C11')
 
-for p in ['C02', 'C03', 'C04', 'C05', 'C06', 'C07', 'C08', 'C09', 'C10', 'C12', 'C13', 'C14', 'C15',
+claim('C06', 'Lean theorem by induction over the chunk list (all segmentations of every stream) + exhaustive model-vs-code enumeration of small streams',
+      'C06_chunking / C06_independent / C06_lines: for every byte stream in which CR occurs only in CRLF and every way '
+      'of cutting it into non-empty recv() results, the model of SocketStream.read (carry-over of the partial line, '
+      'Python splitlines(keepends=True) with LF, CR and CRLF boundaries) yields exactly the LF-terminated lines of '
+      'the stream, each once, complete, in order; the exponential quantifier is discharged by induction. The model is '
+      'tied to stream.py by running both on ALL segmentations of ALL such streams up to 8 bytes (11 thorough) over '
+      '{x, CR, LF} and on random chunkings of AIS streams through the whole socket front-end; pyais is also checked '
+      'directly against the property on the same inputs.',
+      FLOAT_NOTE + 'The kernel/TCP/UDP stack is not modelled: recv() is assumed to return consecutive non-empty '
+      'pieces of the stream.',
+      'DESIGN.md §5 C06')
+
+claim('C10', 'Lean theorems for every body, position and replacement byte (XOR algebra, split lemmas) + differential execution on checksum matrices',
+      'C10_flag (a parsed sentence d body*HH is flagged valid iff HH = XOR(body)), C10_general (any accepted line: '
+      'the number chk_to_int reads equals the XOR), C10_assembled (conjunction over parts), C10_strict (strict '
+      'decode raises the checksum error exactly when a parsed part is invalid, else equals lenient), '
+      'C10_single_byte (every single-byte corruption that does not forge a * is rejected or flagged) about the '
+      'sentence-layer model; tie to messages.py/util.py/decode.py by differential execution on all 255 wrong '
+      'checksums, a checksum-field token matrix, byte substitutions at body positions and all corrupted subsets of '
+      'multi-part messages, lenient and strict.',
+      FLOAT_NOTE, 'DESIGN.md §5 C10')
+
+for p in ['C02', 'C03', 'C04', 'C05', 'C07', 'C08', 'C09', 'C12', 'C13', 'C14', 'C15',
           'C16', 'C17', 'C18', 'C19']:
     PENDING[p] = 'check under construction in this commit (model exists, theorems and harness not yet registered); will be claimed at proof level'
